@@ -21,7 +21,7 @@ def main():
         caught = ", ".join(c.get("detected_by") or []) or "**missed**"
         allc = ", ".join(f"{k}(rc={v.get('rc')})" for k, v in (c.get("checks") or {}).items())
         print(
-            f"| {os.path.basename(os.path.dirname(d))} | {m.get('property')} | {str(m.get('summary', ''))[:160].replace('|', '/')} | {str(m.get('needs', ''))[:120].replace('|', '/')} | "
+            f"| {os.path.basename(os.path.dirname(d))} | {m.get('property')} | {str(m.get('summary', ''))[:120].replace('|', '/')} | {str(m.get('needs', ''))[:90].replace('|', '/')} | "
             f"{'pass' if c.get('tests_pass') else c.get('suite', '?')} | {'fails with / passes without' if c.get('demo_fails_with_patch') and c.get('demo_passes_without_patch') else 'NOT CONFIRMED'} | {caught} [{allc}] | {'; '.join(keys)[:200]} |"
         )
     p = os.path.join(ROOT, "seeded", "own_mutants.json")
